@@ -403,7 +403,7 @@ def relay(model: PyModel, proto: M.Protocol, in_fmt: str, stream, out_fmt: str, 
     return (bytes(out.buf) if out_fmt == "binary" else out.getvalue()), None
 
 
-def perturb_representation(model: PyModel, t, v, rng, stats=None):
+def perturb_representation(model: PyModel, t, v, rng, stats=None, fmt="binary"):
     """The same logical value in another in-memory representation that the Python API equally accepts: arrays in
     Fortran order, as transposed / strided / reversed views of other arrays; dicts built in another insertion order.
     Records are changed in place, field by field."""
@@ -414,19 +414,44 @@ def perturb_representation(model: PyModel, t, v, rng, stats=None):
             keys = [k for k in vars(v) if not k.startswith("__")]
             if len(keys) == len(fields):
                 for (n, ft), k in zip(fields, keys):
-                    setattr(v, k, perturb_representation(model, ft, getattr(v, k), rng, stats))
+                    setattr(v, k, perturb_representation(model, ft, getattr(v, k), rng, stats, fmt))
         return v
     t = res
     if isinstance(t, Opt):
-        return None if v is None else perturb_representation(model, t.inner, v, rng, stats)
+        return None if v is None else perturb_representation(model, t.inner, v, rng, stats, fmt)
     if isinstance(t, Vec):
         if isinstance(v, list):
-            return [perturb_representation(model, t.inner, x, rng, stats) for x in v]
+            return [perturb_representation(model, t.inner, x, rng, stats, fmt) for x in v]
         return v
     if isinstance(t, Map) and isinstance(v, dict):
-        items = [(k, perturb_representation(model, t.value, x, rng, stats)) for k, x in v.items()]
+        items = [(k, perturb_representation(model, t.value, x, rng, stats, fmt)) for k, x in v.items()]
         rng.shuffle(items)
         return dict(items)
+    if isinstance(t, M.Prim) and t.name in ("datetime", "time", "date") and rng.chance(0.6):
+        # the other types the API takes for dates and times: the standard library's and NumPy's
+        import datetime as _dt
+        try:
+            if t.name == "datetime" and hasattr(v, "numpy_value"):
+                ns = int(v.numpy_value.astype("datetime64[ns]").astype(np.int64))
+                if ns % 1000 == 0 and abs(ns) < 2 * 10 ** 18 and rng.chance(0.7):
+                    if stats is not None:
+                        stats["py_datetime_as_datetime.datetime"] = stats.get("py_datetime_as_datetime.datetime", 0) + 1
+                    # (the NDJSON form of an aware datetime carries "+00:00"; the plain one is used there)
+                    return _dt.datetime(1970, 1, 1, tzinfo=_dt.timezone.utc if fmt == "binary" else None) + _dt.timedelta(microseconds=ns // 1000)
+                return np.datetime64(ns, "ns") if fmt == "binary" else v      # (NumPy scalars: the binary serializers take them, to_json does not)
+            if t.name == "time" and hasattr(v, "numpy_value"):
+                ns = int(v.numpy_value.astype("timedelta64[ns]").astype(np.int64))
+                if ns % 1000 == 0 and 0 <= ns < 86400 * 10 ** 9 and rng.chance(0.7):
+                    us = ns // 1000
+                    if stats is not None:
+                        stats["py_time_as_datetime.time"] = stats.get("py_time_as_datetime.time", 0) + 1
+                    return _dt.time(us // 3600000000, us // 60000000 % 60, us // 1000000 % 60, us % 1000000)
+                return np.timedelta64(ns, "ns") if fmt == "binary" else v
+            if t.name == "date" and isinstance(v, _dt.date) and fmt == "binary":
+                return np.datetime64(v.isoformat(), "D")
+        except (OverflowError, ValueError):
+            return v
+        return v
     if isinstance(t, Arr) and isinstance(v, np.ndarray) and v.size > 0 and v.ndim >= 1 and v.dtype != object:
         how = rng.choice(["fortran", "transposed_view", "strided_view", "reversed_view", "as_is"] if v.ndim >= 2 else ["strided_view", "reversed_view", "as_is"])
         if stats is not None:
@@ -457,9 +482,9 @@ def rewrite(model: PyModel, proto: M.Protocol, data: bytes, out_fmt: str, rng, s
         for i, (name, t, is_stream) in enumerate(proto.steps):
             qt = M.qualify(t, ns)
             if is_stream:
-                pyvals[i] = [perturb_representation(model, qt, x, rng, stats) for x in pyvals[i]]
+                pyvals[i] = [perturb_representation(model, qt, x, rng, stats, out_fmt) for x in pyvals[i]]
             else:
-                pyvals[i] = perturb_representation(model, qt, pyvals[i], rng, stats)
+                pyvals[i] = perturb_representation(model, qt, pyvals[i], rng, stats, out_fmt)
         w = model.cls(proto, out_fmt, "Writer")(out)
         meths = model.step_methods(w, "write_")
         for i in range(len(proto.steps)):
